@@ -718,6 +718,23 @@ def handleIO (op : String) (args : List String) (impl : Option (List String)) : 
         | _ => false
       return (out, pv)
     | none => return ("BADOP", none)
+  | "ZCKDL", [bpath, apath, tpath, prepath] =>
+    -- a run of the real zckdl binary: judged with C04's predicate on what it requested and left on disk; its libcurl plumbing
+    -- and range back-off are not modelled, so the model line is just "OK"
+    let bB ← readFile bpath
+    let aB ← (do if apath == "-" then pure none else let x ← readFile apath; pure (some x))
+    let t0 ← readFile prepath
+    let ta ← readFile tpath
+    let pv := impl.map fun i =>
+      match i with
+      | "OK" :: rest =>
+        let reqs := match kv rest "reqs" with
+          | some s => if s == "-" then [] else s.splitOn ";"
+          | none => []
+        let ok := kv rest "exit" == some "0"
+        PredUpd.c04_ok Sha.zckHash aB bB t0 [] reqs (if ok then some 1 else none) 0 (!ok) ta
+      | _ => false
+    return ("OK", pv)
   | "META", [path] =>
     let f ← readFile path
     let m := Header.openFile Sha.zckHash f
